@@ -45,12 +45,12 @@ func (y CheckWhen) check(s *Selection, m meta.Meta) (bool, error) {
 		}
 	}
 	if hw, ok := m.(meta.HasWhen); ok {
-		if hw.When() != nil {
+		for when := hw.When(); when != nil; when = when.Also() {
 			context := s
-			if hw.When().FromAncestor() && above != nil {
+			if when.FromAncestor() && above != nil {
 				context = above
 			}
-			if proceed, err := y.eval(context, m, hw.When(), !hw.When().FromAncestor()); !proceed || err != nil {
+			if proceed, err := y.eval(context, m, when, !when.FromAncestor()); !proceed || err != nil {
 				return proceed, err
 			}
 		}
